@@ -219,6 +219,14 @@ def check_network(ctx, net, ids=None, mol=None, tag=""):
     got8 = sorted((r, sorted(a.items()), sorted(b.items())) for r, a, b in edges_of(H8).values())
     if got8 != exp:
         problems.append(("strings-roundtrip", f"parse_rxns(prefer_suffix=True) {lines_sfx}: got {got8}"))
+    # explicit rules given for lines that also carry a "| rule=" suffix: the explicit rule wins, the suffix is not a species
+    rules_x = ["X" + r_ for r_ in rules_sorted]
+    H9 = CRNHyperGraph().parse_rxns(lines_sfx, rules=rules_x)
+    got9 = sorted((r, sorted(a.items()), sorted(b.items())) for r, a, b in edges_of(H9).values())
+    exp9 = sorted(("X" + r, sorted(a.items()), sorted(b.items())) for r, a, b in want.values())
+    ctx.count("rt_strings_suffix_with_explicit_rules")
+    if got9 != exp9:
+        problems.append(("strings-roundtrip", f"parse_rxns(suffix lines, rules=[explicit...]) {lines_sfx[:3]}: got {got9[:3]} want {exp9[:3]}"))
     # ---- species graph ---- #
     if all(a and b for _, a, b in net):
         S = C.hypergraph_to_species_graph(H, include_mol=True)
